@@ -181,7 +181,7 @@ Theorem C04_parallax_zero_aberration :
     (forall i k, conj ((stack (nth j (index_map full sub) 0)) i k) = (stack (nth j (index_map full sub) 0)) i k) ->
     1 <= b -> j < ctx_n sub -> r1 < N1 -> r2 < N2 ->
     nth j (recon_mask_single rO radd rmul conj half rinv n1 n2 ws1 ws2 N1 N2 w1 w2 Ninv1 Ninv2 (kern_mult rmul g) wtd stack env garbage full sub b) d r1 r2
-    = rmul (upsample2 rO u (fun i j => rsub ((stack (nth j (index_map full sub) 0)) i j) (rmul (rmul ninv1 ninv2) (sum2 rO radd n1 n2 ((stack (nth j (index_map full sub) 0)))))) r1 r2) (rinv (bf_weights rO radd (ctx_n sub) (ctx_wt wtd sub))).
+    = rmul (upsample2 rO u (fun x1 x2 => rsub ((stack (nth j (index_map full sub) 0)) x1 x2) (rmul (rmul ninv1 ninv2) (sum2 rO radd n1 n2 ((stack (nth j (index_map full sub) 0)))))) r1 r2) (rinv (bf_weights rO radd (ctx_n sub) (ctx_wt wtd sub))).
 Proof. exact C04_parallax_zero_aberration_main. Qed.
 Print Assumptions C04_parallax_zero_aberration.
 
@@ -201,7 +201,7 @@ Theorem C04_parallax_zero_aberration_bf :
     (forall m i k, conj (stack m i k) = stack m i k) ->
     1 <= b -> r1 < N1 -> r2 < N2 ->
     corrected_bf rO radd (recon_mask_single rO radd rmul conj half rinv n1 n2 ws1 ws2 N1 N2 w1 w2 Ninv1 Ninv2 (kern_mult rmul g) wtd stack env garbage full sub b) r1 r2
-    = rmul (suml rO radd (map (fun j => upsample2 rO u (fun i j => rsub ((stack (nth j (index_map full sub) 0)) i j) (rmul (rmul ninv1 ninv2) (sum2 rO radd n1 n2 ((stack (nth j (index_map full sub) 0)))))) r1 r2) (seq 0 (ctx_n sub)))) (rinv (bf_weights rO radd (ctx_n sub) (ctx_wt wtd sub))).
+    = rmul (suml rO radd (map (fun j => upsample2 rO u (fun x1 x2 => rsub ((stack (nth j (index_map full sub) 0)) x1 x2) (rmul (rmul ninv1 ninv2) (sum2 rO radd n1 n2 ((stack (nth j (index_map full sub) 0)))))) r1 r2) (seq 0 (ctx_n sub)))) (rinv (bf_weights rO radd (ctx_n sub) (ctx_wt wtd sub))).
 Proof. exact C04_parallax_zero_aberration_bf_main. Qed.
 Print Assumptions C04_parallax_zero_aberration_bf.
 
@@ -222,7 +222,7 @@ Theorem C04_parallax_shift :
     (forall i k, conj ((stack (nth j (index_map full sub) 0)) i k) = (stack (nth j (index_map full sub) 0)) i k) ->
     1 <= b -> j < ctx_n sub -> r1 < N1 -> r2 < N2 ->
     nth j (recon_mask_single rO radd rmul conj half rinv n1 n2 ws1 ws2 N1 N2 w1 w2 Ninv1 Ninv2 (kern_mult rmul g) wtd stack env garbage full sub b) d r1 r2
-    = rmul (roll2 N1 N2 (s1 (ctx_pix sub j)) (s2 (ctx_pix sub j)) (upsample2 rO u (fun i j => rsub ((stack (nth j (index_map full sub) 0)) i j) (rmul (rmul ninv1 ninv2) (sum2 rO radd n1 n2 ((stack (nth j (index_map full sub) 0))))))) r1 r2) (rinv (bf_weights rO radd (ctx_n sub) (ctx_wt wtd sub))).
+    = rmul (roll2 N1 N2 (s1 (ctx_pix sub j)) (s2 (ctx_pix sub j)) (upsample2 rO u (fun x1 x2 => rsub ((stack (nth j (index_map full sub) 0)) x1 x2) (rmul (rmul ninv1 ninv2) (sum2 rO radd n1 n2 ((stack (nth j (index_map full sub) 0))))))) r1 r2) (rinv (bf_weights rO radd (ctx_n sub) (ctx_wt wtd sub))).
 Proof. exact C04_parallax_shift_main. Qed.
 Print Assumptions C04_parallax_shift.
 
@@ -243,7 +243,7 @@ Theorem C04_parallax_shift_bf :
     (forall m i k, conj (stack m i k) = stack m i k) ->
     1 <= b -> r1 < N1 -> r2 < N2 ->
     corrected_bf rO radd (recon_mask_single rO radd rmul conj half rinv n1 n2 ws1 ws2 N1 N2 w1 w2 Ninv1 Ninv2 (kern_mult rmul g) wtd stack env garbage full sub b) r1 r2
-    = rmul (suml rO radd (map (fun j => roll2 N1 N2 (s1 (ctx_pix sub j)) (s2 (ctx_pix sub j)) (upsample2 rO u (fun i j => rsub ((stack (nth j (index_map full sub) 0)) i j) (rmul (rmul ninv1 ninv2) (sum2 rO radd n1 n2 ((stack (nth j (index_map full sub) 0))))))) r1 r2)
+    = rmul (suml rO radd (map (fun j => roll2 N1 N2 (s1 (ctx_pix sub j)) (s2 (ctx_pix sub j)) (upsample2 rO u (fun x1 x2 => rsub ((stack (nth j (index_map full sub) 0)) x1 x2) (rmul (rmul ninv1 ninv2) (sum2 rO radd n1 n2 ((stack (nth j (index_map full sub) 0))))))) r1 r2)
                                 (seq 0 (ctx_n sub)))) (rinv (bf_weights rO radd (ctx_n sub) (ctx_wt wtd sub))).
 Proof. exact C04_parallax_shift_bf_main. Qed.
 Print Assumptions C04_parallax_shift_bf.
@@ -263,9 +263,116 @@ Theorem C04_parallax_shift_general :
     = rmul (re_part radd rmul conj half
               (fmul2 rO radd rmul N1 w1 Ninv1 N2 w2 Ninv2
                  (fun k1 k2 => rmul (g (ctx_pix sub j) k1 k2) (env k1 k2))
-                 (upsample2 rO u (fun i j => rsub ((stack (nth j (index_map full sub) 0)) i j) (rmul (rmul ninv1 ninv2) (sum2 rO radd n1 n2 ((stack (nth j (index_map full sub) 0))))))) r1 r2))
+                 (upsample2 rO u (fun x1 x2 => rsub ((stack (nth j (index_map full sub) 0)) x1 x2) (rmul (rmul ninv1 ninv2) (sum2 rO radd n1 n2 ((stack (nth j (index_map full sub) 0))))))) r1 r2))
            (rinv (bf_weights rO radd (ctx_n sub) (ctx_wt wtd sub))).
 Proof. exact C04_parallax_shift_general_main. Qed.
 Print Assumptions C04_parallax_shift_general.
 
+(* ------------------------------------------------------------------------------------------
+   Non-vacuity: every theorem above instantiated on a concrete model of ALL its hypotheses --
+   Gaussian rationals Q(i) (lib/DFT_Inst.v: ring, conjugation, 4th roots of unity), scan grid
+   2 x 2 with ws a = w (2 a), reconstruction grid 4 x 4 (upsampling factor 2), a 2 x 3 detector
+   mask with five BF pixels and two complementary sub-masks (proof/C04_Proofs_Inst.v). *)
+From Coq Require Import QArith Qcanon.
+From QV.lib Require Import DFT_Inst.
+From QV.proof Require Import C04_Proofs_Base C04_Proofs_Inst.
+Local Close Scope Q_scope.
+Local Open Scope nat_scope.
 
+Example C04_nonvacuous_batch_single :=
+  C04_batch_invariant_single_pass C c0 cadd cmul cconj chalf cinv 4 w4 quarter 4 w4 quarter
+    5 ex_contrib (fun _ => c1) ex_env ex_garbage 2 ltac:(lia).
+
+Example C04_nonvacuous_batch_single_any :=
+  C04_batch_invariant_single_pass_any_partition C c0 cadd cmul cconj chalf cinv 4 w4 quarter 4 w4 quarter
+    3 ex_contrib (fun _ => c1) ex_env ex_garbage [[2; 0]; [1]] [seq 0 3] ex_perm (single_batch_partition 3).
+
+Example C04_nonvacuous_power :=
+  C04_power_accumulation C c0 c1 cadd cmul csub copp C_ring 3 ex_contrib ex_pw ex_garbage [[2; 0]; [1]] 1 2 ex_perm.
+
+Example C04_nonvacuous_batch_two :=
+  C04_batch_invariant_two_pass C c0 c1 cadd cmul csub copp C_ring cconj C_conj_ok chalf cinv
+    4 w4 quarter 4 w4 quarter C_root_ok C_root_ok
+    5 ex_contrib ex_pw (fun _ => c1) ex_env (fun X => X) ex_garbage 2 3 ex_garbage 1 2
+    id_norm_respects ltac:(lia) ltac:(lia) ltac:(lia) ltac:(lia).
+
+Example C04_nonvacuous_batch_two_any :=
+  C04_batch_invariant_two_pass_any_partition C c0 c1 cadd cmul csub copp C_ring cconj C_conj_ok chalf cinv
+    4 w4 quarter 4 w4 quarter C_root_ok C_root_ok
+    3 ex_contrib ex_pw (fun _ => c1) ex_env (fun X => X) ex_garbage [[2; 0]; [1]] [seq 0 3] 1 ex_garbage 1 2
+    id_norm_respects ex_perm (single_batch_partition 3) ltac:(lia) ltac:(lia) ltac:(lia).
+
+Example C04_nonvacuous_linear_single :=
+  C04_linear_in_stack_single_pass C c0 c1 cadd cmul csub copp C_ring cconj C_conj_ok chalf cinv
+    2 ws2r chalf 2 ws2r chalf C_root_ok2 C_root_ok2 4 w4 quarter 4 w4 quarter C_root_ok C_root_ok
+    (kern_mult cmul ex_g) wone ex_env ex_garbage ex_a ex_b ex_stack ex_stack' mfull mA 1 1 ex_garbage 1 2
+    (kern_mult_linear ex_g) (kern_mult_ext ex_g) (creal_conj _) (creal_conj _)
+    ltac:(lia) ltac:(cbv; lia) ltac:(lia) ltac:(lia).
+
+Example C04_nonvacuous_linear_two :=
+  C04_linear_in_stack_two_pass C c0 c1 cadd cmul csub copp C_ring cconj C_conj_ok chalf cinv
+    2 ws2r chalf 2 ws2r chalf C_root_ok2 C_root_ok2 4 w4 quarter 4 w4 quarter C_root_ok C_root_ok
+    (kern_mult cmul ex_g) (fun p => ex_pw (fst p)) wone ex_env (fun X => X) ex_garbage
+    ex_a ex_b ex_stack ex_stack' mfull mB 2 2 ex_garbage 3 0
+    id_norm_respects (kern_mult_linear ex_g) (kern_mult_ext ex_g) (creal_conj _) (creal_conj _)
+    ltac:(lia) ltac:(cbv; lia) ltac:(lia) ltac:(lia).
+
+Example C04_nonvacuous_index_map := C04_index_map_correct mfull mB eq_refl mB_sub.
+(* the map of the example really is the one expected: B = pixels 1, 2, 4 of the five *)
+Example C04_nonvacuous_index_map_value : index_map mfull mB = [1; 2; 4] /\ index_map mfull mA = [0; 3].
+Proof. split; reflexivity. Qed.
+
+Example C04_nonvacuous_complementary :=
+  C04_complementary_masks_partition mfull mA mB eq_refl eq_refl mAB_off mAB_on.
+
+Example C04_nonvacuous_recombine :=
+  C04_submask_recombine C c0 c1 cadd cmul csub copp C_ring cconj chalf cinv 2 ws2r 2 ws2r
+    4 w4 quarter 4 w4 quarter (kern_mult cmul ex_g) wone ex_env ex_garbage ex_stack
+    mfull [mA; mB] (fun _ => 2) 3 1 2
+    ex_parts_ok (C04_complementary_masks_partition mfull mA mB eq_refl eq_refl mAB_off mAB_on)
+    ltac:(lia) (weight_inv mfull (or_introl eq_refl)).
+
+Example C04_nonvacuous_recombine_entry :=
+  C04_submask_stack_entry C c0 c1 cadd cmul csub copp C_ring cconj chalf cinv 2 ws2r 2 ws2r
+    4 w4 quarter 4 w4 quarter (kern_mult cmul ex_g) wone ex_env ex_garbage ex_stack
+    mfull mB 2 5 1 ex_garbage 1 2 eq_refl mB_sub ltac:(lia) ltac:(lia) ltac:(cbv; lia) ltac:(cbv; lia)
+    (weight_inv mB (or_intror (or_intror eq_refl))) (weight_inv mfull (or_introl eq_refl)).
+
+Example C04_nonvacuous_parallax_zero :=
+  C04_parallax_zero_aberration C c0 c1 cadd cmul csub copp C_ring cconj C_conj_ok chalf cinv
+    2 ws2r chalf 2 ws2r chalf C_root_ok2 C_root_ok2 4 w4 quarter 4 w4 quarter C_root_ok C_root_ok
+    2 ltac:(lia) eq_refl eq_refl ws2r_link ws2r_link
+    ex_one wone ex_env ex_garbage ex_stack mfull mB 2 1 ex_garbage 1 2
+    chalf_ok (fun _ _ _ _ _ => eq_refl) (fun _ _ _ _ => eq_refl) (ex_stack_real _)
+    ltac:(lia) ltac:(cbv; lia) ltac:(lia) ltac:(lia).
+
+Example C04_nonvacuous_parallax_zero_bf :=
+  C04_parallax_zero_aberration_bf C c0 c1 cadd cmul csub copp C_ring cconj C_conj_ok chalf cinv
+    2 ws2r chalf 2 ws2r chalf C_root_ok2 C_root_ok2 4 w4 quarter 4 w4 quarter C_root_ok C_root_ok
+    2 ltac:(lia) eq_refl eq_refl ws2r_link ws2r_link
+    ex_one wone ex_env ex_garbage ex_stack mfull mfull 2 1 2
+    chalf_ok (fun _ _ _ _ _ => eq_refl) (fun _ _ _ _ => eq_refl) ex_stack_real
+    ltac:(lia) ltac:(lia) ltac:(lia).
+
+Example C04_nonvacuous_parallax_shift :=
+  C04_parallax_shift C c0 c1 cadd cmul csub copp C_ring cconj C_conj_ok chalf cinv
+    2 ws2r chalf 2 ws2r chalf C_root_ok2 C_root_ok2 4 w4 quarter 4 w4 quarter C_root_ok C_root_ok
+    2 ltac:(lia) eq_refl eq_refl ws2r_link ws2r_link
+    ex_ramp wone ex_env ex_garbage ex_stack ex_s1 ex_s2 mfull mB 2 1 ex_garbage 1 2
+    chalf_ok (fun _ _ _ _ _ => eq_refl) (fun _ _ _ _ => eq_refl) (ex_stack_real _)
+    ltac:(lia) ltac:(cbv; lia) ltac:(lia) ltac:(lia).
+
+Example C04_nonvacuous_parallax_shift_bf :=
+  C04_parallax_shift_bf C c0 c1 cadd cmul csub copp C_ring cconj C_conj_ok chalf cinv
+    2 ws2r chalf 2 ws2r chalf C_root_ok2 C_root_ok2 4 w4 quarter 4 w4 quarter C_root_ok C_root_ok
+    2 ltac:(lia) eq_refl eq_refl ws2r_link ws2r_link
+    ex_ramp wone ex_env ex_garbage ex_stack ex_s1 ex_s2 mfull mfull 3 1 2
+    chalf_ok (fun _ _ _ _ _ => eq_refl) (fun _ _ _ _ => eq_refl) ex_stack_real
+    ltac:(lia) ltac:(lia) ltac:(lia).
+
+Example C04_nonvacuous_parallax_general :=
+  C04_parallax_shift_general C c0 c1 cadd cmul csub copp C_ring cconj C_conj_ok chalf cinv
+    2 ws2r chalf 2 ws2r chalf C_root_ok2 C_root_ok2 4 w4 quarter 4 w4 quarter C_root_ok C_root_ok
+    2 ltac:(lia) eq_refl eq_refl ws2r_link ws2r_link
+    ex_g wone ex_env ex_garbage ex_stack mfull mA 1 1 ex_garbage 3 3
+    ltac:(lia) ltac:(cbv; lia) ltac:(lia) ltac:(lia).
